@@ -232,9 +232,24 @@ Definition writer (f : fmt) (sh : list sop) (g : nat) (w : world) : res :=
   | Dir => try_finally (writer_body Dir sh g) (writer_fin Dir) w
   end.
 
-(** [serialize.write_model]: rotate, then write *)
+(** [serialize.write_model]: rotate, then write.  With backups on, a directory
+    save that raised removes the tree it created ([except: ... shutil.rmtree(root,
+    ignore_errors=True); raise], /repo fix for D17): <path> was renamed aside by
+    the rotation, so what is there was made by this call *)
+Definition drop_partial (maxb : nat) (f : fmt) (w : world) : world :=
+  match f, maxb with
+  | Dir, S _ => if is_dir (slot (fs w) 0)
+                then wof (prim (TRm 0) (set_slot 0 Absent) w)
+                else w
+  | _, _ => w
+  end.
+
 Definition write_model (maxb : nat) (f : fmt) (sh : list sop) (g : nat) (w : world) : res :=
-  andthen (incr maxb 0 w) (writer f sh g).
+  andthen (incr maxb 0 w) (fun w1 =>
+    match writer f sh g w1 with
+    | Done w2 => Done w2
+    | Raised w2 => Raised (drop_partial maxb f w2)
+    end).
 
 (* ------------------------------------------------------------------ *)
 (** * loading: registry side *)
@@ -389,16 +404,6 @@ Definition faulted (s : saveop) : bool :=
 Definition is_dir_save (s : saveop) : bool :=
   match s with (Dir, _, _) => true | _ => false end.
 
-(** no faulted directory save is immediately followed by another faulted save *)
-Fixpoint calm (l : list saveop) : Prop :=
-  match l with
-  | [] => True
-  | a :: t => (match t with
-               | b :: _ => is_dir_save a = true -> faulted a = true -> faulted b = false
-               | [] => True
-               end) /\ calm t
-  end.
-
 (* ------------------------------------------------------------------ *)
 (** * specification of the rotation: every entry moves one place down into the
     first hole; what falls off the end is deleted *)
@@ -417,15 +422,6 @@ Definition rotate (l : fsys) : fsys :=
 
 (** zip saves only *)
 Definition all_zip (l : list saveop) : Prop := Forall (fun s => is_dir_save s = false) l.
-
-
-(** never two failing saves in a row *)
-Fixpoint single_faults (l : list saveop) : Prop :=
-  match l with
-  | [] => True
-  | a :: t => (match t with b :: _ => faulted a = true -> faulted b = false | [] => True end)
-              /\ single_faults t
-  end.
 
 
 (** D17: two consecutive failing directory saves (shape of the "plain" corpus model) *)
